@@ -275,6 +275,54 @@ func c15Retry(c *Ctx, dr *ssa.Function, ra, rb, rc string) {
 	temp := p.callGuard("Temporary(err)==true", []string{"internal/httperror.Temporary"}, -1, IsTrue, func(ci ssa.CallInstruction) bool {
 		return stripConv(ci.Common().Args[0]) == errV
 	})
+	// or through a helper of the package that classifies the failure: its boolean answer can be true
+	// only where Temporary(the error it was handed) was
+	direct := temp
+	temp = Guard{Name: direct.Name, Match: func(f Fact) bool {
+		if direct.Match(f) {
+			return true
+		}
+		if f.Kind != IsTrue {
+			return false
+		}
+		call, idx := resultOf(f.V)
+		if call == nil {
+			return false
+		}
+		g := call.Common().StaticCallee()
+		if g == nil || pkgOf(g) != pkgOf(dr) || len(g.Blocks) == 0 {
+			return false
+		}
+		if idx < 0 {
+			idx = 0
+		}
+		for k, a := range call.Common().Args {
+			if stripConv(a) != errV || k >= len(g.Params) {
+				continue
+			}
+			par := g.Params[k]
+			inner := p.callGuard("Temporary(err)==true", []string{"internal/httperror.Temporary"}, -1, IsTrue, func(ci ssa.CallInstruction) bool {
+				return stripConv(ci.Common().Args[0]) == ssa.Value(par)
+			})
+			all := true
+			for _, r := range returnsOf(g) {
+				if idx >= len(r.Results) {
+					all = false
+					continue
+				}
+				if b, isK := boolConst(retVal(r, idx)); isK && !b {
+					continue
+				}
+				if missing, _ := p.trueReturnMissing(g, r, idx, inner); len(missing) > 0 {
+					all = false
+				}
+			}
+			if all {
+				return true
+			}
+		}
+		return false
+	}}
 	tempEdges := passEdges(dr, temp)
 	del := map[edge]bool{}
 	for e := range okEdges {
